@@ -24,7 +24,7 @@ from vlib import log
 from eng_rbc import tla_val
 
 MON = {
-    "C01": ["KeyAgreement", "AllSubsetsVerify", "HonestRunCompletes", "NoPanicInUse"],
+    "C01": ["KeyAgreement", "AllSubsetsVerify", "HonestRunCompletes", "NoPanicInUse", "EveryParticipantGotValidSig"],
     "C05": ["KeyAgreement", "AllSubsetsVerify", "RevealOnlyAfterAllCommits", "EveryCallReturns", "NoCrash", "NoPanicInUse"],
     "C11": ["EveryCallReturns", "NoCrash"],
 }
@@ -88,6 +88,10 @@ def cases_for(pid, tr, rng, drv, wd):
                     for i in range(reps):
                         pol = ["random", "newest", "oldest", "starve"][i % 4]
                         cs.append(case(scheme, mode, n, t, rng.randrange(1 << 30), policy=pol, msglen=1 + i % 3))
+        # orchestrated signing: the EdDSA adapter through KeyGen + Sign of the complete stack (threshold n-1: everybody signs)
+        for (n, mode) in ([(3, "loud"), (3, "silent"), (2, "loud")] if not big else [(2, "loud"), (3, "loud"), (3, "silent"), (4, "loud"), (4, "silent")]):
+            for i in range(3 if not big else 12):
+                cs.append(case("eddsa", mode, n, n - 1, rng.randrange(1 << 30), policy=["random", "newest", "oldest"][i % 3], deadline=20000))
         # large identifiers through the complete stack (C13 part)
         for ids in ([7, 300, 65535], [1, 256, 512]):
             cs.append(case("bls", "loud", 3, 2, rng.randrange(1 << 30), ids=ids))
